@@ -46,7 +46,7 @@ class BufferWriter {
   BufferWriter& operator=(const BufferWriter&) = default;
 
   Status<void> Prepare(std::size_t size) {
-    if (index_ + size > size_)
+    if (size > size_ - index_)
       return ErrorStatus::WriteLimitReached;
     else
       return {};
